@@ -78,6 +78,9 @@ func c02MakeLog(name string, chunks [][]string, hours []int, gaps []int) c02Log 
 			case line == "cfg":
 				rev++
 				e.Type, e.Data, e.Revision = robust.Config, c02Cfg, rev
+			case line == "cfg60":
+				rev++
+				e.Type, e.Data, e.Revision = robust.Config, strings.Replace(c02Cfg, `"30m"`, `"60m"`, 1), rev
 			case strings.HasPrefix(line, "+"):
 				sess[line[1:]] = idx
 				e.Type, e.Data = robust.CreateSession, "auth-"+line[1:]+"-0123456789"
@@ -111,6 +114,9 @@ func c02Logs(thorough bool) []c02Log {
 		c02MakeLog("old-new-old", [][]string{setup, join, talk, more}, []int{0, 100, 1, 101}, []int{2, 0, 0, 0}),
 		// sessions end, a nick-less session exists at the cut
 		c02MakeLog("endings", [][]string{setup, join, more, end}, []int{0, 1, 2, 3}, []int{2, 0, 1, 0}),
+		// the session expiration is raised by a second, newer config entry: folding the old config entry must
+		// not bring the old (shorter) horizon back
+		c02MakeLog("two-configs", [][]string{setup, {"cfg60", "A: JOIN #c"}, talk}, []int{0, 1, 2}, []int{2, 0, 1}),
 		// all new: nothing may ever be folded
 		c02MakeLog("all-new", [][]string{setup, join}, []int{100, 101}, []int{2, 0}),
 	}
@@ -522,6 +528,10 @@ func c02Schedules(l c02Log, length int) [][]string {
 			// a compaction time that puts the newest applied chunk between "10 minutes" and the
 			// configured expiration (30 minutes): it must not be folded
 			ext(fmt.Sprintf("snapmid:%d", l.Chunks[applied-1].Hours), applied, true, persisted)
+			if l.Name == "two-configs" {
+				// 45 minutes after the newest chunk: inside a 60 minute horizon, outside a 30 minute one
+				ext(fmt.Sprintf("snap45:%d", l.Chunks[applied-1].Hours), applied, true, persisted)
+			}
 			// the common case as one step: snapshot immediately followed by a successful persist
 			seen = map[int]bool{}
 			for k := 0; k < applied; k++ {
@@ -560,6 +570,9 @@ func (w *c02World) run(op string) error {
 		if w.pending != nil {
 			return w.opPersist(-1)
 		}
+	case strings.HasPrefix(op, "snap45:"):
+		h, _ := strconv.Atoi(op[7:])
+		w.opSnapshot(c02Epoch + int64(h)*int64(time.Hour) + int64(59*time.Second) + int64(45*time.Minute) + int64(expireSessionsInterval))
 	case strings.HasPrefix(op, "snapmid:"):
 		h, _ := strconv.Atoi(op[8:])
 		w.opSnapshot(c02Epoch + int64(h)*int64(time.Hour) + int64(59*time.Second) + int64(20*time.Minute) + int64(expireSessionsInterval))
